@@ -126,8 +126,8 @@ def run_case(case, keep_log=False):
         sde = stubs.make_sde(spec, case["dtype"])
         rec = stubs.make_recorder(inner)
         ys_a, extra_a = call(sde, rec, tsv, y0, None, "probe")
-        trace_a = list(rec.trace)
-        grid = [trace_a[0][0]] + [tb for (_, tb, _, _) in trace_a]
+        trace_a = [(r[0], r[1]) for r in stubs.steps_of(rec.trace)]
+        grid = [trace_a[0][0]] + [tb for (_, tb) in trace_a]
         n = n_steps = len(grid) - 1
         if n >= 1 and (grid[-1] - grid[-2]) < 0.999 * dt:
             probes["final_step_clipped"] = 1
@@ -146,7 +146,7 @@ def run_case(case, keep_log=False):
         rec = stubs.make_recorder(inner)
         ts_ref = torch.tensor(sorted(set([t0] + outs + [grid[c] for c in cuts] + [T])), dtype=tdt)
         ys_ref, extra_ref = call(sde, rec, ts_ref, y0, None, "oneshot")
-        trace_ref = list(rec.trace)
+        trace_ref = [(r[0], r[1]) for r in stubs.steps_of(rec.trace)]
         if trace_ref != trace_a:
             raise Violation("trace_depends_on_ts", {"len": [len(trace_ref), len(trace_a)]}, "oneshot")
         ref_at = {float(t): ys_ref[i] for i, t in enumerate(ts_ref)}
@@ -189,7 +189,7 @@ def run_case(case, keep_log=False):
                     probes["crash_not_reached"] += 1
                     sde.crash_f = sde.crash_g = None
                 break
-            surviving.extend(rec.trace)
+            surviving.extend((r[0], r[1]) for r in stubs.steps_of(rec.trace))
             log.add("chunk", ci, a, b, tdig(ys_c), tdig(extra_c))
             for i, t in enumerate(ts_c):
                 t = float(t)
